@@ -206,7 +206,9 @@ func columnsLayout(context *layoutContext, box_ bo.BlockBoxITF, bottomSpace pr.F
 		stopRendering, balancing := false, false
 		for {
 			// Remove extra excluded shapes introduced during the previous loop
+			if len(*context.excludedShapes) > len(originalExcludedShapes) {
 			*context.excludedShapes = (*context.excludedShapes)[:len(originalExcludedShapes)]
+		}
 
 			// Render the columns
 			columnSkipStack = skipStack
